@@ -129,6 +129,26 @@ Definition obs_step (r : lstate * list lout) :=
   (map obs_lout (snd r), lock (fst r), map obs_cst (conns (fst r))).
 Definition obs_trace (n : nat) (evs : list event) := map obs_step (trace (linit n) evs).
 
+(* ---- histories in which the database is closed and reopened between lock
+   events (Worker._do_copy and shelve.archive do that while a client holds the
+   lock): the lock protocol state is untouched ---- *)
+Inductive xevent := Ev (e : event) | Reopen.
+Definition xstep (st : lstate) (x : xevent) : lstate * list lout :=
+  match x with Ev e => step st e | Reopen => (st, []) end.
+Fixpoint xrun (st : lstate) (xs : list xevent) : lstate * list lout :=
+  match xs with
+  | [] => (st, [])
+  | x :: r => let '(s1, o1) := xstep st x in let '(s2, o2) := xrun s1 r in (s2, o1 ++ o2)
+  end.
+Fixpoint xtrace (st : lstate) (xs : list xevent) : list (lstate * list lout) :=
+  match xs with
+  | [] => []
+  | x :: r => let '(s1, o1) := xstep st x in (s1, o1) :: xtrace s1 r
+  end.
+Fixpoint erase (xs : list xevent) : list event :=
+  match xs with [] => [] | Ev e :: r => e :: erase r | Reopen :: r => erase r end.
+Definition obs_xtrace (n : nat) (xs : list xevent) := map obs_step (xtrace (linit n) xs).
+
 Example lock_example :
   snd (run (linit 2) [Acquire 0; Acquire 1; Poll 1; Release 0; Poll 1; Drop 0; Drop 1])
   = [ToldYours 0; ToldBusy 1; ToldBusy 1; Released 0 true; Closed 0; ToldYours 1].
